@@ -191,6 +191,13 @@ type propImpl struct {
 
 var props = map[string]*propImpl{}
 
+// thoroughReady: the checks whose thorough-tier bounds were run clean on the unchanged tree
+// (tools/thorough.sh; durations in DESIGN.md 10.5c). For the others "--tier thorough" explores
+// the quick-tier bounds: a bound that was never run to the end is not registered.
+var thoroughReady = map[string]bool{
+	"C18": true,
+}
+
 // reducedRun: the accessors into unexported state did not compile; drivers skip the jobs that need them.
 var reducedRun bool
 
@@ -257,7 +264,16 @@ func cmdCheck(args []string) int {
 	if *replay != "" {
 		return doReplay(r, *replay)
 	}
+	requested := *tier
+	if *tier == "thorough" && !thoroughReady[id] && os.Getenv("VERIF_FORCE_THOROUGH") == "" {
+		// see thoroughReady
+		*tier = "quick"
+	}
 	c := newCheck(id, *tier, seed)
+	if requested != *tier {
+		fmt.Printf("NOTE: the deeper bounds of %s were not run to completion on the unchanged tree in the time available; the thorough tier of this check explores the quick-tier bounds\n", id)
+		c.Bounds = append(c.Bounds, "thorough tier = quick-tier bounds for this check: only bounds that ran clean on the unchanged tree are registered (DESIGN.md 10.5c)")
+	}
 	c.R = r
 	c.Workers = *workers
 	r.Eng.Workers = *workers
